@@ -9,7 +9,7 @@ step against Stream's own Write action (design mode, drift only).
 """
 import io, itertools, json, os, struct
 
-from vf import check, common, refcodec as rc, tlc
+from vf import check, common, refcodec as rc, simulate, tlc
 from vf.common import MachineryError
 
 PROP = "C03"
@@ -351,6 +351,20 @@ def gen_histories(ctx, recs, tier, exhaustive_len, n_random, rand_len, fail=()):
     return out
 
 
+def _pyval(v):
+    return {"kind": v["kind"], "d": v["d"], "kids": [_pyval(k) for k in v["kids"]], "bad": bool(v["bad"])}
+
+
+def sim_histories(ctx, packer, n):
+    """spec -> code: write histories generated by TLC from MC_Stream (up to 10 writes on two writers, failing writes included)"""
+    out = []
+    for beh in simulate.behaviours("MC_Stream", f"Sim_Stream_{packer}.cfg", n, 10, ctx.seed + 3):
+        h = [(args[0], _pyval(args[1])) for a, args, st in beh[1:] if a in ("Write", "FailWrite")]
+        if h:
+            out.append(h)
+    return out
+
+
 def hist_key(h):
     def s(v):
         return v["d"] + ("!" if v.get("bad") else "") + ("(" + ",".join(s(k) for k in v["kids"]) + ")" if v["kids"] else "")
@@ -435,6 +449,9 @@ def run(tier):
         plans[2] = (JsonPath, plain, 2, 6000, (8, 24), FAIL_JSON)
     for kind, recs, exl, nrand, rl, fail in plans:
         hists = gen_histories(ctx, recs, tier, exl, nrand, rl, fail if kind is not PathBased or thorough else fail[:9])
+        sims = sim_histories(ctx, kind.packer, 150 if not thorough else 1500)
+        ctx.extra["behaviours_simulated_by_tlc_" + kind.name] = len(sims)
+        hists += sims
         # chunk so that one TLC invocation parses <= ~20 MB of JSON
         chunk, traces, size, part = [], [], 0, 0
         for h in hists:
